@@ -547,6 +547,50 @@ class KernelRun:
             await self.step_op("release", "./plan.py", fn=lambda: wf.find(Step, "./plan.py").release())
             await self.pop()
 
+    async def deferred_on_detached_input(self):
+        """A consumer announces (amend) an output of a producer whose creator, a nested plan, is running again:
+        the file is detached but still BUILT.  The consumer asks to be deferred; then the nested plan declares the
+        producer again unchanged (full recycle, no file state changes).  The consumer must be dispatched again."""
+        r, wf = self.r, self.wf
+        running = await self.q(lambda: self.steps(StepState.RUNNING))
+        if "./plan.py" not in running:
+            return
+        data, res = r.sample(PATHS, 2)
+        if not (await self.define_explicit("./plan.py", "./sub.py", [], [], Need.PLAN)).startswith("ok"):
+            return
+        if not (await self.define_explicit("./plan.py", "./consume.py", [], [res], Need.DEFAULT)).startswith("ok"):
+            return
+        if not await self.pop_until("./sub.py", limit=4):
+            return
+        if not (await self.define_explicit("./sub.py", "produce", [], [data], Need.DEFAULT)).startswith("ok"):
+            return
+        if await self.pop_until("produce", limit=4):
+            await self.complete_ok("produce")
+        await self.complete_ok("./sub.py")
+        if not await self.pop_until("./consume.py", limit=4):
+            return
+        # the nested plan runs again: its products are detached, the output stays BUILT
+        await self.step_op("reset_rerun", "./sub.py", fn=lambda: wf.find(Step, "./sub.py").reset_for_rerun())
+        amended = [data]
+
+        def fn():
+            return wf.amend_step(wf.find(Step, "./consume.py"), inp_paths=amended, ran_concurrently=lambda p, c: False)
+
+        def res_(v):
+            un, uf, chk = v
+            return f"{hexlist(sorted(str(x) for x in un))}|{hexlist(sorted(str(x) for x in uf))}|{hexlist(sorted(chk))}"
+
+        ans = await self.tx(f"k amend {kkey('step', './consume.py')} {hexlist(amended)} . . . .", fn, res_)
+        if not ans.startswith("ok"):
+            return
+        await self.step_op("completed", "./consume.py", "~", 1,
+                           fn=lambda: wf.find(Step, "./consume.py").mark_completed(None, True),
+                           result=lambda v: kdump.b01(v))
+        # the nested plan declares the producer again: recycled unchanged
+        await self.define_explicit("./sub.py", "produce", [], [data], Need.DEFAULT)
+        for _ in range(r.randint(2, 4)):
+            await self.pop()
+
     async def hold_running_recycled(self):
         """A RUNNING step opens a hold block and declares a child; its creator runs again (the running step and
         its child are detached) and declares it again unchanged: it is recycled while its hold block is open and
@@ -1133,7 +1177,7 @@ class KernelRun:
 
     SCENARIOS = ("nested_chain", "deferred_wakeup", "resource_race", "detached_completion", "rerole",
                  "amended_consumer_rerun", "hold_recycle", "shrink_resources", "retarget_optional", "cycle_via_detached",
-                 "hold_running_recycled")
+                 "hold_running_recycled", "deferred_on_detached_input")
 
     async def generate(self, cm, nops: int, scenario: str | None = None):
         """A history: boot, then (in the well-formed stream) one directed scenario with probability
@@ -1168,6 +1212,8 @@ class KernelRun:
                 await self.cycle_via_detached()
             elif k < 0.80:
                 await self.hold_running_recycled()
+            elif k < 0.84:
+                await self.deferred_on_detached_input()
         menu = [(self.define, 20), (self.static, 8), (self.declstatic, 5), (self.tree, 4), (self.nglob, 4),
                 (self.amend, 8), (self.recycle_under_glob, 3),
                 (self.confirm, 12), (self.external, 6), (self.pop, 18), (self.run_step, 18),
